@@ -86,6 +86,9 @@ func c14Run(c *core.Ctx) {
 						ds = append(ds, d*unit-1)
 					}
 					for _, dd := range ds {
+						if dd < ms {
+							continue // the property's precondition: a target of at least one millisecond
+						}
 						exp, key, msg := checkForce(l, dd, filler)
 						c.Transitions++
 						c.Traces++
